@@ -136,3 +136,19 @@ package internal
 //@   ensures[C03] error_reporting_setter_preferred: called("internal.trailerWithErrors.TrySetTrailer") ==> result == lastresult("internal.trailerWithErrors.TrySetTrailer") && !called("grpc.ServerStream.SetTrailer")
 //@   ensures[C03] otherwise_plain_setter_once: !called("internal.trailerWithErrors.TrySetTrailer") ==> calls("grpc.ServerStream.SetTrailer") == 1 && result == nil
 //@   modifies everything
+
+// ---- misc.go: message copy helpers (C18, C06) ----
+//
+//@ func CopyMessage
+//@   ensures[C18] a_source_that_is_not_a_message_is_refused: !implements(in, "proto.Message") ==> result != nil && !called(".Reset") && !called("dynamic.TryMerge")
+//@   ensures[C18] a_destination_that_is_not_a_message_is_refused_untouched: !implements(out, "proto.Message") ==> result != nil && !called(".Reset") && !called("dynamic.TryMerge")
+//@   ensures[C18,C06] messages_are_reset_then_merged_exactly_once: implements(in, "proto.Message") && implements(out, "proto.Message") ==> calls(".Reset") == 1 && calls("dynamic.TryMerge") == 1 && result == lastresult("dynamic.TryMerge")
+//@   assert_call[C18,C06] .Reset : destination_is_cleared_before_merging: arg0 == out && !called("dynamic.TryMerge")
+//@   assert_call[C18,C06] dynamic.TryMerge : source_into_the_cleared_destination: arg0 == out && arg1 == in && calls(".Reset") == 1
+//@   modifies external
+//
+//@ func CloneMessage
+//@   ensures[C18] a_value_that_is_not_a_message_is_refused: !implements(m, "proto.Message") ==> result0 == nil && result1 != nil && !called("proto.Clone")
+//@   ensures[C18,C06] messages_are_deep_cloned_once: implements(m, "proto.Message") ==> calls("proto.Clone") == 1 && result1 == nil && result0 == lastresult("proto.Clone")
+//@   assert_call[C18,C06] proto.Clone : of_the_given_message: arg0 == m
+//@   modifies nothing
